@@ -6,7 +6,7 @@ import gen_table as G
 from props import C17 as S
 
 RULE = ("scripts of 2-6 statements, each ending with ';' at the end of a line, drawn from generated tables (core fragment, with "
-        "constraints), generated sequences, CREATE TYPE/DOMAIN/SCHEMA samples, SET statements, unsupported statements (queries incl. "
+        "constraints), generated sequences, CREATE TYPE/DOMAIN/SCHEMA samples, tables whose literals hold unpaired parentheses, SET statements, unsupported statements (queries incl. "
         "unbalanced '<' '>', DML, views, session commands) and filtered lines; all orders for n<=3, random orders beyond; "
         "expected = in-order concatenation of each statement parsed alone (SET entries excluded: a trailing SET is dropped by the "
         "line machine, documented); plus layer-A correspondence (statement boundaries, SET entries, comments) between Model/Pre.v "
@@ -40,6 +40,11 @@ def run(ctx, res):
         if sp.get("wf"):
             blocks.append(("seq", S.render(rng, sp["lexemes"]) + ";"))
     blocks += [("entity", s + ";") for s in SAMPLES]
+    # statements whose string literals hold an unpaired parenthesis / a semicolon-free smiley: the end of a statement is its ';',
+    # whatever the literals contain
+    for i, lit in enumerate(["'1) first step'", "':('", "'a (b'", "'x) y) z'", "'(('"]):
+        blocks.append(("table", "CREATE TABLE lit_%d (\n  id int,\n  note varchar(20) DEFAULT %s,\n  z int\n);" % (i, lit)))
+        blocks.append(("table", "CREATE TABLE litc_%d (id int COMMENT %s, z int);" % (i, lit)))
     unsup = [("unsup", s + ";") for s in UNSUP]
     sets = [("set", "SET search_path = public;"), ("set", "set hive.x.y = true;")]
     alone = {}
